@@ -639,6 +639,7 @@ func runC10(c *Ctx) {
 					s.WritePlan = append(s.WritePlan, zsim.Outcome{Short: 1 + f.Draw(5)})
 				}
 				br.silentShort = true
+				c.R.Probe("a destination answering short counts without error")
 			}
 		}
 		switch br.kind {
